@@ -64,7 +64,7 @@ Spec == Init /\ [][Next]_vars
 View == pool                      \* edge generation: one visit per pool state
 ViewMC == <<pool, last, left>>    \* model checking: the call history is irrelevant
 
-TypeOK == pool \in Pools
+TypeOK == DOMAIN pool \subseteq Tx /\ \A t \in DOMAIN pool : pool[t] \in Heights
 
 (* The monitor: what C37 promises about one call, given the pool before it (last.pre), the pool after it and *)
 (* the answer.                                                                                               *)
